@@ -87,7 +87,6 @@ What was added for the ones not caught (or caught without an input) at first:
 * C03: the passes of a loop as a computed function (now: relational).
 * C05 / C19: escapes, comments, "literal = covered bytes" for strings and text.
 * C11: trim / split validity; numeric conversions against a real-number specification.
-* C06: distinctness of the allocation numbers of `@reserve` nodes is a hypothesis of `bound_insert`.
 '''
 sec = tpl.replace('@@SIZES@@', sizes).replace('@@SEEDED@@', seeded)
 s = open(V + '/DESIGN.md').read()
